@@ -38,22 +38,32 @@ Section ParentObj.
     specialize (Hu (a, b) Hab). cbn [fst snd] in *. apply andb_true_iff in Hu as [U1 U2]. apply ueqb_eq in U1, U2. now rewrite U1, U2.
   Qed.
 
-  (* the object terms of a referencing object map: the parent's subject terms on the joined parent rows *)
-  Lemma parent_obj_equiv f t o p sr ot : join_objmap o = true -> find_tm doc (m_value (o_tm o)) = Some p -> plain_map (t_subj p) = true ->
+  Lemma ref_obj_fields o : ref_objmap o = true ->
+    m_kind (o_tm o) = KParent /\ m_tt (o_tm o) = None /\ undelimit_joins (o_joins o) = o_joins o /\ is_parent o = true.
+  Proof.
+    unfold ref_objmap. intro H. apply orb_true_iff in H as [H|H]; [destruct (join_obj_fields o H) as (A & B & _ & C & D); auto|].
+    unfold self_objmap in H. rewrite !andb_true_iff in H. destruct H as [[Hk Hn] Hj].
+    assert (Ek : m_kind (o_tm o) = KParent) by (destruct (m_kind (o_tm o)); try discriminate; reflexivity).
+    split; [exact Ek|]. split; [destruct (m_tt (o_tm o)); [discriminate|reflexivity]|].
+    split; [destruct (o_joins o); [reflexivity|discriminate]|unfold is_parent; now rewrite Ek].
+  Qed.
+
+  (* the object terms of a referencing object map: the parent's subject terms on the joined parent rows (the same row when there
+     is no join condition) *)
+  Lemma parent_obj_equiv f t o p sr ot : ref_objmap o = true -> find_tm doc (m_value (o_tm o)) = Some p -> plain_map (t_subj p) = true ->
     (In ot (obj_terms scfg fe doc tables (S (S f)) t o sr) <->
-     exists psr sl, In psr (tables (t_src p)) /\ conds_hold scfg sr psr (o_joins o) = true /\
+     exists psr sl, In psr (joined_rows scfg tables sr (t_src p) (o_joins o)) /\
        spec_lex scfg (m_kind (t_subj p)) (m_value (t_subj p)) (spec_tt_subject (t_subj p)) [] psr = Some sl /\ ot = render (spec_tt_subject (t_subj p)) sl).
   Proof.
-    intros Hj Hf Hp. destruct (join_obj_fields o Hj) as (Ek & _ & Hne & _ & _).
+    intros Hj Hf Hp. destruct (ref_obj_fields o Hj) as (Ek & _ & _ & _).
     assert (Pk : is_plain (m_kind (t_subj p)) = true) by (unfold plain_map in Hp; now apply andb_true_iff in Hp as [X _]).
     assert (Eo : obj_terms scfg fe doc tables (S (S f)) t o sr =
                  flat_map (fun r' => spec_terms scfg fe (m_kind (t_subj p)) (m_value (t_subj p)) (spec_tt_subject (t_subj p)) [] r')
-                          (filter (fun q => conds_hold scfg sr q (o_joins o)) (tables (t_src p)))).
-    { cbn [obj_terms]. rewrite Ek, Hf. unfold joined_rows. destruct (o_joins o) as [|c cs]; [now contradiction Hne|].
-      apply flat_map_ext. intro r'. cbn [subj_terms]. destruct (m_kind (t_subj p)); try discriminate; reflexivity. }
+                          (joined_rows scfg tables sr (t_src p) (o_joins o))).
+    { cbn [obj_terms]. rewrite Ek, Hf. apply flat_map_ext. intro r'. cbn [subj_terms]. destruct (m_kind (t_subj p)); try discriminate; reflexivity. }
     rewrite Eo, in_flat_map. split.
-    - intros (psr & Hin & Hot). apply filter_In in Hin as [Hin Hc]. apply spec_terms_plain in Hot as (sl & E & ->); auto. exists psr, sl. auto.
-    - intros (psr & sl & Hin & Hc & E & ->). exists psr. split; [apply filter_In; auto|]. apply spec_terms_plain; eauto.
+    - intros (psr & Hin & Hot). apply spec_terms_plain in Hot as (sl & E & ->); auto. exists psr, sl. auto.
+    - intros (psr & sl & Hin & E & ->). exists psr. split; [exact Hin|]. apply spec_terms_plain; eauto.
   Qed.
 End ParentObj.
 
@@ -62,39 +72,37 @@ Proof.
   pose proof (class_pom_plain c) as H. unfold plain_pom in H. rewrite !andb_true_iff in H. destruct H as [[A B] C].
   unfold jplain_pom. rewrite A, B, C. reflexivity.
 Qed.
-Lemma join_obj_is_parent o : join_objmap o = true -> is_parent o = true.
-Proof. intro H. now destruct (join_obj_fields o H) as (_ & _ & _ & _ & X). Qed.
-Lemma eff_jplain p : (forallb plain_objmap (p_objs p) || forallb join_objmap (p_objs p)) = true -> effective_objs p = p_objs p.
+Lemma ref_obj_is_parent o : ref_objmap o = true -> is_parent o = true.
+Proof. intro H. now destruct (ref_obj_fields o H) as (_ & _ & _ & X). Qed.
+Lemma eff_jplain p : (forallb plain_objmap (p_objs p) || forallb ref_objmap (p_objs p)) = true -> effective_objs p = p_objs p.
 Proof.
   intro H. apply orb_true_iff in H as [H|H]; [now apply effective_plain|].
   unfold effective_objs. replace (filter (fun o => negb (is_parent o)) (p_objs p)) with (@nil objmap); [reflexivity|].
-  induction (p_objs p) as [|o l IH]; auto. cbn [forallb] in H. apply andb_true_iff in H as [H1 H2]. cbn [filter]. rewrite (join_obj_is_parent o H1). cbn [negb]. auto.
+  induction (p_objs p) as [|o l IH]; auto. cbn [forallb] in H. apply andb_true_iff in H as [H1 H2]. cbn [filter]. rewrite (ref_obj_is_parent o H1). cbn [negb]. auto.
 Qed.
-Lemma obj_kind p o : (forallb plain_objmap (p_objs p) || forallb join_objmap (p_objs p)) = true -> In o (p_objs p) -> plain_objmap o = true \/ join_objmap o = true.
+Lemma obj_kind p o : (forallb plain_objmap (p_objs p) || forallb ref_objmap (p_objs p)) = true -> In o (p_objs p) -> plain_objmap o = true \/ ref_objmap o = true.
 Proof. intros H Ho. apply orb_true_iff in H as [H|H]; rewrite forallb_forall in H; auto. Qed.
-Lemma plain_not_join o : plain_objmap o = true -> join_objmap o = true -> False.
-Proof. intros H1 H2. apply plain_obj_not_parent in H1. apply join_obj_is_parent in H2. congruence. Qed.
 
 Section TmJoin.
   Variables (scfg : scfg) (fe : fenv) (doc : document) (tables : ustr -> stable) (d : document).
 
   Theorem tm_lines_equiv2 t sr rs :
     jplain_tm t = true ->
-    (forall pm o, In pm (t_poms t) -> In o (p_objs pm) -> join_objmap o = true ->
+    (forall pm o, In pm (t_poms t) -> In o (p_objs pm) -> ref_objmap o = true ->
        exists p, find_tm doc (m_value (o_tm o)) = Some p /\ plain_map (t_subj p) = true /\ ott_of d o = spec_tt_subject (t_subj p)) ->
     base_rules_of d (prepare_tm t) = Ok rs ->
     forall x, In x (tm_row_lines scfg fe doc tables t sr) <->
       exists rl, In rl rs /\
         ((r_ok rl <> KParent /\ doc_rule_line scfg rl sr = Some x) \/
          (r_ok rl = KParent /\ exists p psr, find_tm doc (r_ov rl) = Some p /\ plain_map (t_subj p) = true /\ r_ott rl = spec_tt_subject (t_subj p) /\
-            In psr (tables (t_src p)) /\ conds_hold scfg sr psr (r_ojoin rl) = true /\
+            In psr (joined_rows scfg tables sr (t_src p) (r_ojoin rl)) /\
             doc_join_line scfg rl (m_kind (t_subj p)) (m_value (t_subj p)) sr psr = Some x)).
   Proof.
     intros Hpl Hpar Hb x. unfold jplain_tm in Hpl. rewrite !andb_true_iff in Hpl. destruct Hpl as [[[Hsub Hsg] Hpoms] _].
     set (poms := t_poms t ++ map class_pom (t_classes t)).
     assert (Hpp : forall pm, In pm poms -> jplain_pom pm = true).
     { intros pm H. apply in_app_iff in H as [H|H]; [rewrite forallb_forall in Hpoms; auto|]. apply in_map_iff in H as (c & <- & _). apply class_pom_jplain. }
-    assert (Hpar' : forall pm o, In pm poms -> In o (p_objs pm) -> join_objmap o = true ->
+    assert (Hpar' : forall pm o, In pm poms -> In o (p_objs pm) -> ref_objmap o = true ->
        exists p, find_tm doc (m_value (o_tm o)) = Some p /\ plain_map (t_subj p) = true /\ ott_of d o = spec_tt_subject (t_subj p)).
     { intros pm o H Ho Hj. apply in_app_iff in H as [H|H]; [eauto|]. apply in_map_iff in H as (c & <- & _). cbn [class_pom p_objs] in Ho. destruct Ho as [<-|[]]. discriminate. }
     assert (Eprep : t_poms (prepare_tm t) = map (fun p => {| p_preds := p_preds p; p_objs := p_objs p; p_graphs := placed_graphs t p |}) poms) by apply prepare_poms.
@@ -139,8 +147,8 @@ Section TmJoin.
           rewrite (rule_line_is_tuple scfg (prepare_tm t) a stt p o ld ldk ldv gm sr Hsub Plp Plo Plg).
           unfold tuple_line. cbn [prepare_tm complete_default_graph sgraphs_to_pom class_to_pom t_subj]. rewrite Esl, Epl, Eol, Esuf, Egt. reflexivity.
       + destruct (Hpar' pm o Hpm Ho Jo) as (p' & Hf & Hp' & Eott).
-        destruct (join_obj_fields o Jo) as (Ek & _ & _ & Eju & Eip).
-        apply (parent_obj_equiv scfg fe doc tables f t o p' sr ot Jo Hf Hp') in Hot as (psr & ol & Hpsr & Hc & Eol & ->).
+        destruct (ref_obj_fields o Jo) as (Ek & _ & Eju & Eip).
+        apply (parent_obj_equiv scfg fe doc tables f t o p' sr ot Jo Hf Hp') in Hot as (psr & ol & Hpsr & Eol & ->).
         exists (mk_rule (prepare_tm t) a stt (m_kind p) (m_value p) (m_kind (o_tm o)) (m_value (o_tm o)) (ott_of d o) LDNone KNone [] (m_kind gm) (m_value gm) (o_joins o)).
         split.
         * apply Hin. exists {| p_preds := p_preds pm; p_objs := p_objs pm; p_graphs := placed_graphs t pm |}. split; [exact Hpm'|].
@@ -148,7 +156,7 @@ Section TmJoin.
           unfold effective_objs. cbn [p_objs]. fold (effective_objs pm). rewrite (eff_jplain pm Po). apply in_flat_map. exists o. split; auto.
           unfold obj_rows. rewrite Eip. now left.
         * right. rewrite Ek. cbn [mk_rule r_ok r_ov r_ott r_ojoin undelimit]. split; [reflexivity|]. exists p', psr. rewrite Eju.
-          split; [exact Hf|]. split; [exact Hp'|]. split; [exact Eott|]. split; [exact Hpsr|]. split; [exact Hc|].
+          split; [exact Hf|]. split; [exact Hp'|]. split; [exact Eott|]. split; [exact Hpsr|].
           unfold doc_join_line, rule_graph_opt. cbn [mk_rule r_sk r_sv r_stt r_pk r_pv r_ott r_gk r_gv].
           assert (Hgm' : plain_map gm = true) by (unfold plain_graph in Plg; now apply andb_true_iff in Plg as [X _]).
           cbn [prepare_tm complete_default_graph sgraphs_to_pom class_to_pom t_subj].
@@ -179,10 +187,10 @@ Section TmJoin.
         split; [apply (obj_equiv scfg fe doc tables (S f) t o' sr _ Plo); exists ld', ldk', ldv', ol, suffix; auto|].
         split; [apply (graph_equiv scfg fe tables t pm sr gt Hsg Pg); eauto|].
         reflexivity.
-      + destruct (join_obj_fields o' Jo) as (Ek & _ & _ & Eju & Eip).
+      + destruct (ref_obj_fields o' Jo) as (Ek & _ & Eju & Eip).
         unfold obj_rows in Hrow. rewrite Eip in Hrow. destruct Hrow as [E|[]]. injection E as <- <- <- <- <-.
-        destruct Hx as [[Hnk _]|[_ (p' & psr & Hf & Hp' & Eott & Hpsr & Hc & Hx)]]; [exfalso; apply Hnk; cbn [mk_rule r_ok]; exact Ek|].
-        rewrite Ek in *. cbn [mk_rule r_ok r_ov r_ott r_ojoin undelimit] in Hf, Eott, Hc. rewrite Eju in Hc.
+        destruct Hx as [[Hnk _]|[_ (p' & psr & Hf & Hp' & Eott & Hpsr & Hx)]]; [exfalso; apply Hnk; cbn [mk_rule r_ok]; exact Ek|].
+        rewrite Ek in *. cbn [mk_rule r_ok r_ov r_ott r_ojoin undelimit] in Hf, Eott, Hpsr. rewrite Eju in Hpsr.
         unfold doc_join_line, rule_graph_opt in Hx. cbn [mk_rule r_sk r_sv r_stt r_pk r_pv r_ott r_gk r_gv] in Hx.
         assert (Hgm' : plain_map gm = true) by (unfold plain_graph in Plg; now apply andb_true_iff in Plg as [X _]).
         cbn [prepare_tm complete_default_graph sgraphs_to_pom class_to_pom t_subj] in Hx.
@@ -221,7 +229,8 @@ Proof. rewrite base_rules_unfold. cbv zeta. destruct (valid_subject_tt _); [refl
 Lemma jplain_base_rules d t rs : jplain_tm t = true -> base_rules_of d (prepare_tm t) = Ok rs ->
   forall r, In r rs -> unstarred r = true /\ r_src r = t_src t /\ r_asserted r = asserted t /\ r_tm r = t_id t /\
     r_sk r = m_kind (t_subj t) /\ r_sv r = m_value (t_subj t) /\ r_stt r = tt_final (tt_early (t_subj t)) /\
-    (r_ok r = KParent -> exists pm o, In pm (t_poms t) /\ In o (p_objs pm) /\ join_objmap o = true /\ r_ov r = m_value (o_tm o) /\ r_ojoin r = o_joins o /\ r_ott r = ott_of d o).
+    (r_ok r = KParent -> exists pm o, In pm (t_poms t) /\ In o (p_objs pm) /\ ref_objmap o = true /\ r_ov r = m_value (o_tm o) /\ r_ojoin r = o_joins o /\ r_ott r = ott_of d o /\
+                                      r_ld r = LDNone /\ r_ldv r = []).
 Proof.
   intros Hpl Hb r Hr. unfold jplain_tm in Hpl. rewrite !andb_true_iff in Hpl. destruct Hpl as [[[Hsub Hsg] Hpoms] _].
   assert (Hsk : mkind_eqb (m_kind (t_subj t)) KQuoted = false).
@@ -240,8 +249,8 @@ Proof.
     unfold jplain_pom in Ppm. rewrite !andb_true_iff in Ppm. destruct Ppm as [[Pp Po] Pg].
     unfold pom_rules in Hr. apply gen_in in Hr as (p & o & ott & ld & ldk & ldv & gm & Hp & Hrow & Hgm & ->). cbn [p_preds p_objs p_graphs] in *.
     unfold effective_objs in Hrow. cbn [p_objs] in Hrow. fold (effective_objs pm) in Hrow. rewrite (eff_jplain pm Po) in Hrow. apply in_flat_map in Hrow as (o' & Ho & Hrow).
-    unfold obj_rows in Hrow. apply in_map_iff in Hrow as (ldr & E & _). injection E as <- <- _.
-    unfold unstarred. cbn [mk_rule r_sk r_sv r_stt r_ok r_ov r_ott r_ojoin r_src r_asserted r_tm]. cbn [prepare_tm complete_default_graph sgraphs_to_pom class_to_pom t_subj t_src t_id].
+    unfold obj_rows in Hrow. apply in_map_iff in Hrow as (ldr & E & Hldr). injection E as <- <- Eldr.
+    unfold unstarred. cbn [mk_rule r_sk r_sv r_stt r_ok r_ov r_ott r_ojoin r_src r_asserted r_tm r_ld r_ldv]. cbn [prepare_tm complete_default_graph sgraphs_to_pom class_to_pom t_subj t_src t_id].
     rewrite Hsk, (plain_map_undelimit _ Hsub).
     destruct (obj_kind pm o' Po Ho) as [Plo|Jo].
     + unfold plain_objmap, plain_map in Plo. rewrite !andb_true_iff in Plo. destruct Plo as [[Hk _] _].
@@ -249,7 +258,8 @@ Proof.
       * destruct (m_kind (o_tm o')); try discriminate; reflexivity.
       * rewrite <- Ea. rewrite Ep. reflexivity.
       * intro E. rewrite E in Hk. discriminate.
-    + destruct (join_obj_fields o' Jo) as (Ek & _ & _ & Eju & _). rewrite Ek. cbn [undelimit].
+    + destruct (ref_obj_fields o' Jo) as (Ek & _ & Eju & Eip). rewrite Ek. cbn [undelimit].
+      rewrite Eip in Hldr. destruct Hldr as [Hldr|[]]. rewrite <- Hldr in Eldr. injection Eldr as <- <- <-.
       repeat split; auto.
       * rewrite <- Ea. rewrite Ep. reflexivity.
       * intros _. apply in_app_iff in Hpm as [Hpm|Hpm].
@@ -259,7 +269,7 @@ Qed.
 
 Lemma resolve_fields mid r r' : resolve_parent mid r = Ok r' ->
   r_id r' = r_id r /\ r_tm r' = r_tm r /\ r_src r' = r_src r /\ r_asserted r' = r_asserted r /\ r_sk r' = r_sk r /\ r_sv r' = r_sv r /\ r_stt r' = r_stt r /\
-  r_pk r' = r_pk r /\ r_pv r' = r_pv r /\ r_gk r' = r_gk r /\ r_gv r' = r_gv r.
+  r_pk r' = r_pk r /\ r_pv r' = r_pv r /\ r_gk r' = r_gk r /\ r_gv r' = r_gv r /\ r_ld r' = r_ld r /\ r_ldv r' = r_ldv r.
 Proof.
   unfold resolve_parent. destruct (mkind_eqb (r_ok r) KParent); [|intro E; injection E as <-; repeat split; reflexivity].
   destruct (first_rule_of_tm mid (r_ov r)) as [p|]; [|discriminate].
@@ -273,10 +283,12 @@ Qed.
 Lemma resolve_join mid r r' : r_ok r = KParent -> resolve_parent mid r = Ok r' ->
   exists p0, first_rule_of_tm mid (r_ov r) = Some p0 /\
     ((ueqb (r_src r) (r_src p0) && forallb (fun cp => ueqb (fst cp) (snd cp)) (r_ojoin r)) = false ->
-     r_ok r' = KParent /\ r_ov r' = r_id p0 /\ r_ott r' = r_ott r /\ r_ojoin r' = r_ojoin r).
+     r_ok r' = KParent /\ r_ov r' = r_id p0 /\ r_ott r' = r_ott r /\ r_ojoin r' = r_ojoin r) /\
+    ((ueqb (r_src r) (r_src p0) && forallb (fun cp => ueqb (fst cp) (snd cp)) (r_ojoin r)) = true ->
+     r_ok r' = r_sk p0 /\ r_ov r' = r_sv p0 /\ r_ott r' = r_stt p0 /\ r_ojoin r' = []).
 Proof.
   intros H. unfold resolve_parent. rewrite H. cbn [mkind_eqb]. destruct (first_rule_of_tm mid (r_ov r)) as [p|]; [|discriminate].
-  intro E. exists p. split; auto. intro Hn. rewrite Hn in E. injection E as <-. cbn. auto.
+  intro E. exists p. split; auto. split; intro Hn; rewrite Hn in E; injection E as <-; cbn; auto.
 Qed.
 
 Lemma find_rule_nodup l x : nodupb (map r_id l) = true -> In x l -> find_rule l (r_id x) = Some x.
@@ -300,6 +312,13 @@ Lemma doc_join_line_fields scfg rl rl' k v csr psr :
   r_sk rl' = r_sk rl -> r_sv rl' = r_sv rl -> r_stt rl' = r_stt rl -> r_pk rl' = r_pk rl -> r_pv rl' = r_pv rl -> r_ott rl' = r_ott rl ->
   r_gk rl' = r_gk rl -> r_gv rl' = r_gv rl -> doc_join_line scfg rl' k v csr psr = doc_join_line scfg rl k v csr psr.
 Proof. intros A B C D E F G H. unfold doc_join_line, rule_graph_opt. now rewrite A, B, C, D, E, F, G, H. Qed.
+Lemma doc_rule_line_as_join scfg rl sr : r_ld rl = LDNone -> r_ldv rl = [] ->
+  doc_rule_line scfg rl sr = doc_join_line scfg rl (r_ok rl) (r_ov rl) sr sr.
+Proof.
+  intros El Elv. unfold doc_rule_line, doc_join_line, spec_parts, spec_po, spec_po_gen, spec_suffix_of. rewrite El, Elv.
+  destruct (spec_lex scfg (r_sk rl) (r_sv rl) (r_stt rl) [] sr); auto. destruct (spec_lex scfg (r_pk rl) (r_pv rl) TIri [] sr); auto.
+  destruct (spec_lex scfg (r_ok rl) (r_ov rl) (r_ott rl) [] sr); auto. now rewrite app_nil_r.
+Qed.
 Lemma mkind_eqb_neq a b : mkind_eqb a b = false -> a <> b.
 Proof. intros H ->. destruct b; discriminate. Qed.
 
@@ -348,97 +367,148 @@ Section DocJoinEquiv.
     { intros t rs r Ht Hrs Hb Hr. assert (Hc : In r (concat base)) by (apply in_concat; eauto).
       destruct (number_from_all (concat base) 0 r Hc) as (k & Hk). exists k. apply Mid. exists k, r. repeat split; auto.
       destruct (jplain_base_rules d t rs (Pl t Ht) Hb r Hr) as (_ & _ & _ & Htm & _). rewrite Htm. unfold tm_ids. rewrite Ed, map_map. apply in_map_iff. exists t. auto. }
-    assert (ParentInfo : forall t pm o, In t d0 -> In pm (t_poms t) -> In o (p_objs pm) -> join_objmap o = true ->
+    assert (ParentInfo : forall t pm o, In t d0 -> In pm (t_poms t) -> In o (p_objs pm) -> ref_objmap o = true ->
               exists p, In p d0 /\ find_tm d0 (m_value (o_tm o)) = Some p /\ plain_map (t_subj p) = true /\ ott_of d o = spec_tt_subject (t_subj p) /\
-                        (ueqb (t_src t) (t_src p) && forallb (fun cp => ueqb (fst cp) (snd cp)) (o_joins o)) = false).
+                        tt_final (tt_early (t_subj p)) = spec_tt_subject (t_subj p) /\
+                        (if self_objmap o then ueqb (t_src t) (t_src p) = true
+                         else (ueqb (t_src t) (t_src p) && forallb (fun cp => ueqb (fst cp) (snd cp)) (o_joins o)) = false)).
     { intros t pm o Ht Hpm Ho Jo. unfold parents_ok in Hpo. rewrite forallb_forall in Hpo. specialize (Hpo t Ht). rewrite forallb_forall in Hpo. specialize (Hpo pm Hpm).
       rewrite forallb_forall in Hpo. specialize (Hpo o Ho). unfold parent_ok in Hpo. rewrite Jo in Hpo.
-      destruct (find (fun p => ueqb (t_id p) (m_value (o_tm o))) d0) as [p|] eqn:Ef; [|discriminate]. apply negb_true_iff in Hpo.
+      destruct (find (fun p => ueqb (t_id p) (m_value (o_tm o))) d0) as [p|] eqn:Ef; [|discriminate].
       pose proof (find_some _ _ Ef) as [Hp _]. exists p. split; [exact Hp|]. split; [exact Ef|].
       pose proof (Pl p Hp) as Pp. unfold jplain_tm in Pp. rewrite !andb_true_iff in Pp. destruct Pp as [[[Psub _] _] _].
-      split; [exact Psub|]. split; [|exact Hpo].
-      destruct (join_obj_fields o Jo) as (_ & Ett & _ & _ & Eip). unfold ott_of. rewrite Eip, Ett. unfold parent_subject_tt. rewrite Ed, find_prepare, Ef. cbn [option_map].
-      change (t_subj (prepare_tm p)) with (t_subj p). apply tt_subject_is_spec. destruct (Tm p Hp) as (rs & _ & Hb). exact (base_rules_valid d (prepare_tm p) rs Hb). }
+      split; [exact Psub|].
+      assert (Ett : tt_final (tt_early (t_subj p)) = spec_tt_subject (t_subj p)).
+      { apply tt_subject_is_spec. destruct (Tm p Hp) as (rs & _ & Hb). exact (base_rules_valid d (prepare_tm p) rs Hb). }
+      split; [|split; [exact Ett|]].
+      - destruct (ref_obj_fields o Jo) as (_ & Emt & _ & Eip). unfold ott_of. rewrite Eip, Emt. unfold parent_subject_tt. rewrite Ed, find_prepare, Ef. cbn [option_map].
+        change (t_subj (prepare_tm p)) with (t_subj p). exact Ett.
+      - destruct (self_objmap o); [exact Hpo|now apply negb_true_iff in Hpo]. }
     assert (ParentRule : forall pid p p0, find_tm d0 pid = Some p -> first_rule_of_tm mid pid = Some p0 ->
-              r_src p0 = t_src p /\ r_sk p0 = m_kind (t_subj p) /\ r_sv p0 = m_value (t_subj p) /\ In p0 mid).
+              r_src p0 = t_src p /\ r_sk p0 = m_kind (t_subj p) /\ r_sv p0 = m_value (t_subj p) /\ r_stt p0 = tt_final (tt_early (t_subj p)) /\ In p0 mid).
     { intros pid p p0 Hf Hfirst. unfold first_rule_of_tm in Hfirst. apply find_some in Hfirst as [Hp0 Etm]. apply ueqb_eq in Etm.
       destruct (MidBase p0 Hp0) as (k & r & t' & rs & -> & Ht' & Hb & Hr).
-      destruct (jplain_base_rules d t' rs (Pl t' Ht') Hb r Hr) as (_ & Hsrc & _ & Htm & Esk & Esv & _).
+      destruct (jplain_base_rules d t' rs (Pl t' Ht') Hb r Hr) as (_ & Hsrc & _ & Htm & Esk & Esv & Estt & _).
       cbn [with_id r_tm] in Etm. rewrite Htm in Etm. pose proof (find_tm_nodup d0 t' Hnd Ht') as X. rewrite Etm, Hf in X. injection X as ->.
-      cbn [with_id r_src r_sk r_sv]. auto. }
+      cbn [with_id r_src r_sk r_sv r_stt]. auto. }
     assert (Resolved : forall p0, In p0 mid -> exists q, In q rules /\ resolve_parent mid p0 = Ok q /\ find_rule rules (r_id p0) = Some q).
     { intros p0 Hp0. destruct (Forall2_in_l _ _ _ _ Er Hp0) as (q & Hq & Hres). exists q. split; auto. split; auto.
       destruct (resolve_fields mid p0 q Hres) as (Eid & _). rewrite <- Eid. now apply find_rule_nodup. }
-    assert (JA : forall r r', In r mid -> r_ok r = KParent -> resolve_parent mid r = Ok r' ->
-              exists k r0 t rs p p0 q,
+    (* the common analysis of a referencing rule of the table before parent resolution *)
+    assert (RA : forall r r', In r mid -> r_ok r = KParent -> resolve_parent mid r = Ok r' ->
+              exists k r0 t rs p p0,
                 r = with_id k r0 /\ In t d0 /\ base_rules_of d (prepare_tm t) = Ok rs /\ In r0 rs /\ r_src r0 = t_src t /\ r_asserted r0 = asserted t /\
-                find_tm d0 (r_ov r0) = Some p /\ plain_map (t_subj p) = true /\ r_ott r0 = spec_tt_subject (t_subj p) /\
-                r_ok r' = KParent /\ r_ov r' = r_id p0 /\ r_ott r' = r_ott r0 /\ r_ojoin r' = r_ojoin r0 /\
-                find_rule rules (r_id p0) = Some q /\ r_src q = t_src p /\ r_sk q = m_kind (t_subj p) /\ r_sv q = m_value (t_subj p)).
+                find_tm d0 (r_ov r0) = Some p /\ plain_map (t_subj p) = true /\ r_ott r0 = spec_tt_subject (t_subj p) /\ r_ld r0 = LDNone /\ r_ldv r0 = [] /\
+                first_rule_of_tm mid (r_ov r0) = Some p0 /\ In p0 mid /\
+                r_src p0 = t_src p /\ r_sk p0 = m_kind (t_subj p) /\ r_sv p0 = m_value (t_subj p) /\ r_stt p0 = spec_tt_subject (t_subj p) /\
+                (match r_ojoin r0 with
+                 | [] => r_ok r' = r_sk p0 /\ r_ov r' = r_sv p0 /\ r_ott r' = r_stt p0 /\ r_ojoin r' = [] /\ t_src p = t_src t
+                 | _ => r_ok r' = KParent /\ r_ov r' = r_id p0 /\ r_ott r' = r_ott r0 /\ r_ojoin r' = r_ojoin r0
+                 end)).
     { intros r r' Hr Hk Hres. destruct (MidBase r Hr) as (k & r0 & t & rs & -> & Ht & Hb & Hr0).
       destruct (jplain_base_rules d t rs (Pl t Ht) Hb r0 Hr0) as (_ & Hsrc & Hass & _ & _ & _ & _ & Hjoin).
-      cbn [with_id r_ok] in Hk. destruct (Hjoin Hk) as (pm & o & Hpm & Ho & Jo & Eov & Eoj & Eott).
-      destruct (ParentInfo t pm o Ht Hpm Ho Jo) as (p & Hp & Hf & Hpp & Eottp & Hnot).
-      destruct (resolve_join mid (with_id k r0) r' Hk Hres) as (p0 & Hfirst & Himp). cbn [with_id r_ov r_src r_ojoin r_ott] in Hfirst, Himp.
+      cbn [with_id r_ok] in Hk. destruct (Hjoin Hk) as (pm & o & Hpm & Ho & Jo & Eov & Eoj & Eott & Eld & Eldv).
+      destruct (ParentInfo t pm o Ht Hpm Ho Jo) as (p & Hp & Hf & Hpp & Eottp & Ettp & Hsrcs).
+      destruct (resolve_join mid (with_id k r0) r' Hk Hres) as (p0 & Hfirst & Hno & Hyes). cbn [with_id r_ov r_src r_ojoin r_ott] in Hfirst, Hno, Hyes.
       rewrite <- Eov in Hf.
-      destruct (ParentRule (r_ov r0) p p0 Hf Hfirst) as (Esrc0 & Esk0 & Esv0 & Hp0mid).
-      rewrite Hsrc, Esrc0, Eoj in Himp. destruct (Himp Hnot) as (K1 & K2 & K3 & K4).
-      destruct (Resolved p0 Hp0mid) as (q & Hq & Hresq & Hfq).
-      destruct (resolve_fields mid p0 q Hresq) as (_ & _ & Q3 & _ & Q5 & Q6 & _).
-      exists k, r0, t, rs, p, p0, q. rewrite Q3, Q5, Q6. rewrite <- Eoj in K4. rewrite <- Eott in Eottp. repeat split; auto. }
+      destruct (ParentRule (r_ov r0) p p0 Hf Hfirst) as (Esrc0 & Esk0 & Esv0 & Estt0 & Hp0mid).
+      rewrite Hsrc, Esrc0, Eoj in Hno, Hyes. rewrite <- Eott in Eottp.
+      exists k, r0, t, rs, p, p0. rewrite Estt0, Ettp. repeat (split; [assumption || reflexivity|]).
+      rewrite Eoj. unfold ref_objmap in Jo.
+      destruct (o_joins o) as [|c cs] eqn:Ej.
+      - assert (Es : self_objmap o = true).
+        { apply orb_true_iff in Jo as [Jo|Jo]; [|exact Jo]. destruct (join_obj_fields o Jo) as (_ & _ & X & _). now contradiction X. }
+        rewrite Es in Hsrcs. cbn [forallb] in Hyes. rewrite Hsrcs in Hyes. destruct (Hyes eq_refl) as (A & B & C & D).
+        rewrite Estt0, Ettp in C. apply ueqb_eq in Hsrcs. repeat split; auto.
+      - assert (Es : self_objmap o = false) by (unfold self_objmap; rewrite Ej; now rewrite andb_false_r).
+        rewrite Es in Hsrcs. destruct (Hno Hsrcs) as (A & B & C & D). auto. }
     intro x. unfold spec_lines. rewrite mem_dedup, in_flat_map. split.
     - intros (t & Ht & Hx). destruct (asserted t) eqn:Ea; [|contradiction]. apply in_flat_map in Hx as (sr & Hsr & Hx).
       destruct (Tm t Ht) as (rs & Hrs & Hb).
-      assert (Hpar : forall pm o, In pm (t_poms t) -> In o (p_objs pm) -> join_objmap o = true ->
+      assert (Hpar : forall pm o, In pm (t_poms t) -> In o (p_objs pm) -> ref_objmap o = true ->
                 exists p, find_tm d0 (m_value (o_tm o)) = Some p /\ plain_map (t_subj p) = true /\ ott_of d o = spec_tt_subject (t_subj p)).
       { intros pm o Hpm Ho Jo. destruct (ParentInfo t pm o Ht Hpm Ho Jo) as (p & _ & A & B & C & _). eauto. }
       destruct (proj1 (tm_lines_equiv2 scfg fe d0 tables d t sr rs (Pl t Ht) Hpar Hb x) Hx) as (rl0 & Hrl0 & Hcase).
       destruct (jplain_base_rules d t rs (Pl t Ht) Hb rl0 Hrl0) as (_ & Hsrc & Hass & _).
       destruct (InMid t rs rl0 Ht Hrs Hb Hrl0) as (k & Hmid).
       destruct (Forall2_in_l _ _ _ _ Er Hmid) as (r' & Hr' & Hres).
-      destruct (resolve_fields mid (with_id k rl0) r' Hres) as (_ & _ & F3 & F4 & F5 & F6 & F7 & F8 & F9 & F10 & F11).
-      cbn [with_id r_src r_asserted r_sk r_sv r_stt r_pk r_pv r_gk r_gv] in F3, F4, F5, F6, F7, F8, F9, F10, F11.
-      destruct Hcase as [[Hnk Hline]|[Hk (p & psr & Hf & Hpp & Eott & Hpsr & Hc & Hline)]].
+      destruct (resolve_fields mid (with_id k rl0) r' Hres) as (_ & _ & F3 & F4 & F5 & F6 & F7 & F8 & F9 & F10 & F11 & F12 & F13).
+      cbn [with_id r_src r_asserted r_sk r_sv r_stt r_pk r_pv r_gk r_gv r_ld r_ldv] in F3, F4, F5, F6, F7, F8, F9, F10, F11, F12, F13.
+      destruct Hcase as [[Hnk Hline]|[Hk (p & psr & Hf & Hpp & Eott & Hpsr & Hline)]].
       + left. assert (E : r' = with_id k rl0) by (apply (resolve_plain mid (with_id k rl0) r' Hnk Hres)). subst r'.
         exists (with_id k rl0), sr. split; [exact Hr'|]. split; [cbn [with_id r_asserted]; now rewrite Hass|]. split; [exact Hnk|].
         split; [cbn [with_id r_src]; now rewrite Hsrc|]. exact Hline.
-      + right. assert (Hk' : r_ok (with_id k rl0) = KParent) by exact Hk.
-        destruct (JA (with_id k rl0) r' Hmid Hk' Hres) as (k' & r0' & t' & rs' & p' & p0 & q & Heq & _ & _ & _ & _ & _ & Hf' & _ & _ & K1 & K2 & K3 & K4 & Hfq & Q1 & Q2 & Q3).
+      + assert (Hk' : r_ok (with_id k rl0) = KParent) by exact Hk.
+        destruct (RA (with_id k rl0) r' Hmid Hk' Hres) as (k' & r0' & t' & rs' & p' & p0 & Heq & _ & _ & _ & _ & _ & Hf' & _ & _ & Eld & Eldv & _ & Hp0mid & P1 & P2 & P3 & P4 & Hkind).
         assert (Eov : r_ov r0' = r_ov rl0) by (apply (f_equal r_ov) in Heq; exact (eq_sym Heq)).
         assert (Eot : r_ott r0' = r_ott rl0) by (apply (f_equal r_ott) in Heq; exact (eq_sym Heq)).
         assert (Eoj : r_ojoin r0' = r_ojoin rl0) by (apply (f_equal r_ojoin) in Heq; exact (eq_sym Heq)).
-        rewrite Eov, Hf in Hf'. injection Hf' as <-.
-        exists r', q, sr, psr. split; [exact Hr'|]. split; [now rewrite F4, Hass|]. split; [exact K1|]. split; [now rewrite K2|].
-        split; [now rewrite F3, Hsrc|]. split; [now rewrite Q1|]. split; [now rewrite K4, Eoj|].
-        rewrite Q2, Q3. rewrite <- Hline. apply doc_join_line_fields; auto. now rewrite K3.
+        assert (Eld0 : r_ld r0' = r_ld rl0) by (apply (f_equal r_ld) in Heq; exact (eq_sym Heq)).
+        assert (Eldv0 : r_ldv r0' = r_ldv rl0) by (apply (f_equal r_ldv) in Heq; exact (eq_sym Heq)).
+        rewrite Eov, Hf in Hf'. injection Hf' as <-. rewrite Eoj in Hkind.
+        destruct (r_ojoin rl0) as [|c cs] eqn:Ej.
+        * (* no join condition: the rule has become a plain rule that reads the parent's subject map on the same row *)
+          destruct Hkind as (K1 & K2 & K3 & K4 & Ksrc). cbn [joined_rows] in Hpsr. destruct Hpsr as [<-|[]].
+          left. exists r', sr. split; [exact Hr'|]. split; [now rewrite F4, Hass|].
+          split; [rewrite K1, P2; intro X; unfold plain_map in Hpp; apply andb_true_iff in Hpp as [Y _]; rewrite X in Y; discriminate|].
+          split; [now rewrite F3, Hsrc|].
+          rewrite (doc_rule_line_as_join scfg r' sr) by (rewrite ?F12, ?F13, <- ?Eld0, <- ?Eldv0; assumption).
+          rewrite K1, K2, P2, P3. rewrite <- Hline. apply doc_join_line_fields; auto. now rewrite K3, P4, Eott.
+        * destruct Hkind as (K1 & K2 & K3 & K4). cbn [joined_rows] in Hpsr. apply filter_In in Hpsr as [Hpsr Hc].
+          destruct (Resolved p0 Hp0mid) as (q & Hq & Hresq & Hfq).
+          destruct (resolve_fields mid p0 q Hresq) as (_ & _ & Q3 & _ & Q5 & Q6 & _).
+          right. exists r', q, sr, psr. split; [exact Hr'|]. split; [now rewrite F4, Hass|]. split; [exact K1|]. split; [now rewrite K2|].
+          split; [now rewrite F3, Hsrc|]. split; [now rewrite Q3, P1|]. split; [now rewrite K4|].
+          rewrite Q5, Q6, P2, P3. rewrite <- Hline. apply doc_join_line_fields; auto. now rewrite K3, Eot.
     - intros [(rl & sr & Hrl & Has & Hnk & Hsr & Hline)|(rl & q & csr & psr & Hrl & Has & Hk & Hfq & Hcsr & Hpsr & Hc & Hline)].
       + destruct (Forall2_in_r _ _ _ _ Er Hrl) as (r & Hr & Hres).
-        assert (Hnk0 : r_ok r <> KParent).
-        { intro Hk. destruct (JA r rl Hr Hk Hres) as (k' & r0' & t' & rs' & p' & p0 & q & _ & _ & _ & _ & _ & _ & _ & _ & _ & K1 & _). now apply Hnk. }
-        assert (E : rl = r) by (apply (resolve_plain mid _ _ Hnk0 Hres)). subst rl.
-        destruct (MidBase r Hr) as (k & r0 & t & rs & -> & Ht & Hb & Hr0).
-        destruct (jplain_base_rules d t rs (Pl t Ht) Hb r0 Hr0) as (_ & Hsrc & Hass & _).
-        cbn [with_id r_asserted r_src r_ok] in Has, Hsr, Hnk0. rewrite doc_rule_line_with_id in Hline.
-        exists t. split; auto. rewrite <- Hass, Has. apply in_flat_map. exists sr. split; [now rewrite <- Hsrc|].
-        assert (Hpar : forall pm o, In pm (t_poms t) -> In o (p_objs pm) -> join_objmap o = true ->
-                  exists p, find_tm d0 (m_value (o_tm o)) = Some p /\ plain_map (t_subj p) = true /\ ott_of d o = spec_tt_subject (t_subj p)).
-        { intros pm o Hpm Ho Jo. destruct (ParentInfo t pm o Ht Hpm Ho Jo) as (p & _ & A & B & C & _). eauto. }
-        apply (tm_lines_equiv2 scfg fe d0 tables d t sr rs (Pl t Ht) Hpar Hb). exists r0. split; auto.
+        destruct (mkind_eqb (r_ok r) KParent) eqn:Ekr.
+        * (* a referencing rule without join condition, rewritten by the parser *)
+          apply mkind_eqb_eq in Ekr.
+          destruct (RA r rl Hr Ekr Hres) as (k & r0 & t & rs & p & p0 & -> & Ht & Hb & Hr0 & Hsrc & Hass & Hf & Hpp & Eott & Eld & Eldv & _ & _ & P1 & P2 & P3 & P4 & Hkind).
+          destruct (resolve_fields mid (with_id k r0) rl Hres) as (_ & _ & F3 & F4 & F5 & F6 & F7 & F8 & F9 & F10 & F11 & F12 & F13).
+          cbn [with_id r_src r_asserted r_sk r_sv r_stt r_pk r_pv r_gk r_gv r_ld r_ldv] in F3, F4, F5, F6, F7, F8, F9, F10, F11, F12, F13.
+          destruct (r_ojoin r0) as [|c cs] eqn:Ej; [|exfalso; apply Hnk; apply Hkind].
+          destruct Hkind as (K1 & K2 & K3 & K4 & Ksrc).
+          exists t. split; auto. rewrite <- Hass, <- F4, Has. apply in_flat_map. exists sr. split; [now rewrite <- Hsrc, <- F3|].
+          assert (Hpar : forall pm o, In pm (t_poms t) -> In o (p_objs pm) -> ref_objmap o = true ->
+                    exists p, find_tm d0 (m_value (o_tm o)) = Some p /\ plain_map (t_subj p) = true /\ ott_of d o = spec_tt_subject (t_subj p)).
+          { intros pm o Hpm Ho Jo. destruct (ParentInfo t pm o Ht Hpm Ho Jo) as (p1 & _ & A & B & C & _). eauto. }
+          apply (tm_lines_equiv2 scfg fe d0 tables d t sr rs (Pl t Ht) Hpar Hb). exists r0. split; auto. right.
+          split; [exact Ekr|]. exists p, sr. split; [exact Hf|]. split; [exact Hpp|]. split; [exact Eott|]. split; [rewrite Ej; now left|].
+          rewrite (doc_rule_line_as_join scfg rl sr) in Hline by (rewrite ?F12, ?F13; assumption).
+          rewrite K1, K2, P2, P3 in Hline. rewrite <- Hline. symmetry. apply doc_join_line_fields; auto. now rewrite K3, P4, Eott.
+        * apply mkind_eqb_neq in Ekr.
+          assert (E : rl = r) by (apply (resolve_plain mid _ _ Ekr Hres)). subst rl.
+          destruct (MidBase r Hr) as (k & r0 & t & rs & -> & Ht & Hb & Hr0).
+          destruct (jplain_base_rules d t rs (Pl t Ht) Hb r0 Hr0) as (_ & Hsrc & Hass & _).
+          cbn [with_id r_asserted r_src r_ok] in Has, Hsr, Ekr. rewrite doc_rule_line_with_id in Hline.
+          exists t. split; auto. rewrite <- Hass, Has. apply in_flat_map. exists sr. split; [now rewrite <- Hsrc|].
+          assert (Hpar : forall pm o, In pm (t_poms t) -> In o (p_objs pm) -> ref_objmap o = true ->
+                    exists p, find_tm d0 (m_value (o_tm o)) = Some p /\ plain_map (t_subj p) = true /\ ott_of d o = spec_tt_subject (t_subj p)).
+          { intros pm o Hpm Ho Jo. destruct (ParentInfo t pm o Ht Hpm Ho Jo) as (p & _ & A & B & C & _). eauto. }
+          apply (tm_lines_equiv2 scfg fe d0 tables d t sr rs (Pl t Ht) Hpar Hb). exists r0. split; auto.
       + destruct (Forall2_in_r _ _ _ _ Er Hrl) as (r & Hr & Hres).
         assert (Hk0 : r_ok r = KParent).
         { destruct (mkind_eqb (r_ok r) KParent) eqn:E; [now apply mkind_eqb_eq|]. apply mkind_eqb_neq in E.
           assert (X : rl = r) by (apply (resolve_plain mid _ _ E Hres)). subst rl. now contradiction E. }
-        destruct (JA r rl Hr Hk0 Hres) as (k & r0 & t & rs & p & p0 & q' & -> & Ht & Hb & Hr0 & Hsrc & Hass & Hf & Hpp & Eott & K1 & K2 & K3 & K4 & Hfq' & Q1 & Q2 & Q3).
+        destruct (RA r rl Hr Hk0 Hres) as (k & r0 & t & rs & p & p0 & -> & Ht & Hb & Hr0 & Hsrc & Hass & Hf & Hpp & Eott & Eld & Eldv & _ & Hp0mid & P1 & P2 & P3 & P4 & Hkind).
+        destruct (r_ojoin r0) as [|c cs] eqn:Ej.
+        { exfalso. destruct Hkind as (K1 & _). rewrite Hk, P2 in K1. unfold plain_map in Hpp. apply andb_true_iff in Hpp as [Y _]. rewrite <- K1 in Y. discriminate. }
+        destruct Hkind as (K1 & K2 & K3 & K4).
+        destruct (Resolved p0 Hp0mid) as (q' & Hq' & Hresq & Hfq').
         rewrite K2, Hfq' in Hfq. injection Hfq as <-.
-        destruct (resolve_fields mid (with_id k r0) rl Hres) as (_ & _ & F3 & F4 & F5 & F6 & F7 & F8 & F9 & F10 & F11).
+        destruct (resolve_fields mid p0 q' Hresq) as (_ & _ & Q3 & _ & Q5 & Q6 & _).
+        destruct (resolve_fields mid (with_id k r0) rl Hres) as (_ & _ & F3 & F4 & F5 & F6 & F7 & F8 & F9 & F10 & F11 & _).
         cbn [with_id r_src r_asserted r_sk r_sv r_stt r_pk r_pv r_gk r_gv] in F3, F4, F5, F6, F7, F8, F9, F10, F11.
         exists t. split; auto. rewrite <- Hass, <- F4, Has. apply in_flat_map. exists csr. split; [now rewrite <- Hsrc, <- F3|].
-        assert (Hpar : forall pm o, In pm (t_poms t) -> In o (p_objs pm) -> join_objmap o = true ->
+        assert (Hpar : forall pm o, In pm (t_poms t) -> In o (p_objs pm) -> ref_objmap o = true ->
                   exists p, find_tm d0 (m_value (o_tm o)) = Some p /\ plain_map (t_subj p) = true /\ ott_of d o = spec_tt_subject (t_subj p)).
         { intros pm o Hpm Ho Jo. destruct (ParentInfo t pm o Ht Hpm Ho Jo) as (p1 & _ & A & B & C & _). eauto. }
         apply (tm_lines_equiv2 scfg fe d0 tables d t csr rs (Pl t Ht) Hpar Hb). exists r0. split; auto. right.
-        split; [exact Hk0|]. exists p, psr. split; [exact Hf|]. split; [exact Hpp|]. split; [exact Eott|]. split; [now rewrite <- Q1|].
-        split; [now rewrite <- K4|]. rewrite <- Hline, Q2, Q3. symmetry. apply doc_join_line_fields; auto.
+        split; [exact Hk0|]. exists p, psr. split; [exact Hf|]. split; [exact Hpp|]. split; [exact Eott|].
+        split; [rewrite Ej; cbn [joined_rows]; apply filter_In; split; [now rewrite <- P1, <- Q3|now rewrite <- K4]|].
+        rewrite <- Hline, Q5, Q6, P2, P3. symmetry. apply doc_join_line_fields; auto.
   Qed.
 End DocJoinEquiv.
 
